@@ -140,6 +140,41 @@ pub fn c10_native_loops_and_chance() {
             cases += 1;
         }
     }
+    // less-than-n for EVERY state, not only those a loop starting at 0 reaches: observed values below, at and above n; the
+    // reported progress is value/n exactly (also above 1: an evaluation budget overshot by the last pass)
+    for n in [1u32, 2, 3, 7, 20, 1000] {
+        for value in [0u32, 1, 2, 3, 6, 7, 8, 19, 20, 21, 40, 999, 1000, 1001, 5000, u32::MAX] {
+            for evals in [false, true] {
+                let c: Box<dyn Condition<P0>> = if evals { LessThanN::evaluations(n) } else { LessThanN::iterations(n) };
+                let mut state: State<P0> = State::new();
+                state.insert(Iterations(0));
+                state.insert(crate::state::common::Evaluations(0));
+                c.init(&P0, &mut state).unwrap();
+                if evals { *state.borrow_value_mut::<crate::state::common::Evaluations>() = value; } else { *state.borrow_value_mut::<Iterations>() = value; }
+                let got = c.evaluate(&P0, &mut state).unwrap();
+                let progress = if evals { state.get_value::<Progress<ValueOf<crate::state::common::Evaluations>>>() } else { state.get_value::<Progress<ValueOf<Iterations>>>() };
+                if got != (value < n) || progress != f64::from(value) / f64::from(n) {
+                    eprintln!("COUNTEREXAMPLE LessThanN({n}) over {} with observed value {value}: result {got} (expected {}), reported progress {progress} (expected {})",
+                              if evals { "evaluations" } else { "iterations" }, value < n, f64::from(value) / f64::from(n));
+                    panic!("less-than-n does not decide / report what its name says");
+                }
+                cases += 1;
+            }
+        }
+    }
+    // a loop bounded by EVALUATIONS whose body spends 7 per pass: 3 passes for a budget of 20, progress 21/20 at the end
+    {
+        let config = Configuration::<P0>::builder()
+            .while_(LessThanN::evaluations(20), |b| b.debug(|_, state| *state.borrow_value_mut::<crate::state::common::Evaluations>() += 7))
+            .build();
+        let state = config.optimize_with(&P0, |state| { state.insert(crate::state::common::Evaluations(0)); Ok(()) }).expect("a bounded loop must not fail");
+        let progress = state.get_value::<Progress<ValueOf<crate::state::common::Evaluations>>>();
+        if state.iterations() != 3 || state.evaluations() != 21 || progress != 21.0 / 20.0 {
+            eprintln!("COUNTEREXAMPLE loop bounded by 20 evaluations, 7 per pass: {} passes, {} evaluations, progress {progress} (expected 3, 21, 1.05)", state.iterations(), state.evaluations());
+            panic!("loop / condition violates C10");
+        }
+        cases += 1;
+    }
     // RandomChance: p = 0 never, p = 1 always, otherwise the observed frequency over 20000 draws is within 0.02 of p
     for (p, seed) in [(0.0, 1u64), (1.0, 2), (0.1, 3), (0.3, 4), (0.5, 5), (0.9, 6)] {
         let c = RandomChance::new::<P0>(p);
